@@ -37,6 +37,7 @@ LENGTHS_EXTRA = (6, 9, 13, 31, 32)            # thorough only
 LAYOUTS = ('E', 'O1', 'O2')                    # electrical_signal, optical_signal 1-pol, optical_signal 2-pol
 NMODES = ('none', 'swap', 'mix', 'zs')        # no noise | S=0,N=pattern | S=pattern,N=other basis el. | zero-sum noise
 OPS = (('w', False), ('f', False), ('t', False), ('w', True), ('f', True), ('t', True))
+W_DEPTH = 2                       # w() depends on len() and gv only: checked on every state of depth <= 2
 BAD_DOMAINS = ('x', '', 'time', 'wt', 'z', None, 0, 1.5)
 
 # gv call histories (applied after gv.clean()); a-priori sampling rate where the last call fixes it
@@ -243,7 +244,7 @@ def _nontrivial_state(n, s2, n2):
 
 
 def _parity(n):
-    return 'odd' if n % 2 else 'even'
+    return 'len1' if n == 1 else ('odd' if n % 2 else 'even')
 
 
 class _St:
@@ -429,7 +430,8 @@ def _expand(st, layout, n, leafdesc, viol, stat):
                              f"{where0}: {undo.__name__}(x('{dom}',True).{nm}) != x('{dom}').{nm} bitwise: "
                              f"shifted={np.asarray(a).tolist()[:6]} unshifted={np.asarray(b).tolist()[:6]}"))
     # --- mutual inverses: x('w')('t') ~ x and x('t')('w') ~ x (implementation against itself)
-    for first, second, nm2 in (('w', 't', 'wt'), ('f', 't', 'ft'), ('t', 'w', 'tw'), ('t', 'f', 'tf')):
+    # ('f' results are bitwise those of 'w' - checked above - so the 'f' round trips are run from the leaf only)
+    for first, second, nm2 in (('w', 't', 'wt'), ('t', 'w', 'tw'), ('f', 't', 'ft'), ('t', 'f', 'tf'))[:4 if st.depth == 0 else 2]:
         mid = res_by_op[(first, False)]
         if type(mid) is not type(xp) or np.shape(mid.signal) != np.shape(xp.signal):
             continue
@@ -494,7 +496,8 @@ def explore(case):
         nxt = []
         for st in frontier:
             where = f'{leafdesc} program={st.path}'
-            h.update(check_w(st.obj, n, layout, fs_now, where, viol))
+            if st.depth <= W_DEPTH:
+                h.update(check_w(st.obj, n, layout, fs_now, where, viol))
             h.update(check_power(st.obj, layout, where, viol))
             succ, mr = _expand(st, layout, n, leafdesc, viol, stat)
             maxratio = max(maxratio, mr)
@@ -510,7 +513,8 @@ def explore(case):
     # states of the last level: state invariants only (w, power)
     for st in frontier:
         where = f'{leafdesc} program={st.path}'
-        h.update(check_w(st.obj, n, layout, fs_now, where, viol))
+        if st.depth <= W_DEPTH:
+            h.update(check_w(st.obj, n, layout, fs_now, where, viol))
         h.update(check_power(st.obj, layout, where, viol))
     if gv_snapshot() != gsnap:
         viol.append(('gv-modified', f'{leafdesc}: gv changed while transforming / calling w() / power()'))
@@ -563,9 +567,14 @@ def wgrid(case):
 
 
 # ------------------------------------------------------------------ driver
+def depth_for(tier, n):
+    if tier == 'quick':
+        return 2
+    return 4 if n in LENGTHS_QUICK else 3
+
+
 def leaves(tier, seed):
     lengths = LENGTHS_QUICK + (LENGTHS_EXTRA if tier == 'thorough' else ())
-    depth = 2 if tier == 'quick' else 4
     out = []
     i = 0
     for n in sorted(lengths):
@@ -575,7 +584,7 @@ def leaves(tier, seed):
                     if pat[0] == 'ramp_i' and nmode != 'none':
                         continue                              # int dtype only exists without (complex) noise
                     out.append({'layout': layout, 'n': n, 'pat': pat, 'nmode': nmode, 'cfg': i % len(GV_CFGS),
-                                'depth': depth, 'seed': seed})
+                                'depth': depth_for(tier, n), 'seed': seed})
                     i += 1
     return out
 
@@ -585,11 +594,11 @@ def run(ctx):
     lengths = LENGTHS_QUICK + (() if ctx.quick else LENGTHS_EXTRA)
     ctx.rule(f'xf: for every leaf = (class/layout in {LAYOUTS}) x (length in {sorted(lengths)}) x (data = FULL BASIS e_k and j*e_k on every '
              f'row, real and complex dtype, + real/int/complex ramps + one VERIF_SEED-selected random field) x (noise in {NMODES}) '
-             f'a BFS over all programs of depth <= {depth} over the 6 operations (w|f|t) x (shift False|True), de-duplicated by '
+             f'a BFS over all programs of depth <= {depth}{"" if ctx.quick else f" (depth <= 3 for the extra lengths {sorted(LENGTHS_EXTRA)})"} over the 6 operations (w|f|t) x (shift False|True), de-duplicated by '
              f'canonical object state, executed on the real objects in lock-step with a numpy.fft row-wise model and an exact '
              f'80-bit DFT model of the (signal, noise) pair; every transition: new object/class/n_pol/shape/no aliasing/operand '
              f'unchanged, values vs both models, Parseval per row, f==w bitwise, opposite numpy shift recovers the unshifted '
-             f'result bitwise, round trips wt/ft/tw/tf; every state: w(), w(True), power(); objects are built under the default '
+             f'result bitwise, round trips wt/tw (ft/tf from the leaf); every state: power(), and w(), w(True) on states of depth <= 2; objects are built under the default '
              f'gv and used under one of {len(GV_CFGS)} other gv configurations')
     ctx.rule(f'wgrid: full product layout x length x noise(none|mix) x gv configuration at construction x gv configuration at call '
              f'({len(GV_CFGS)}^2 ordered pairs, with and without clean() in between)')
